@@ -73,6 +73,22 @@ var c14Zones = []*time.Location{
 	time.FixedZone("p0545", 5*3600+45*60),
 }
 
+// c14ListForm: 0 as given, 1 reversed, 2 every entry twice, 3 reversed with every entry twice
+func c14ListForm[T any](l []T, form int) []T {
+	var ret []T
+	for i := range l {
+		x := l[i]
+		if form%2 == 1 {
+			x = l[len(l)-1-i]
+		}
+		ret = append(ret, x)
+		if form >= 2 {
+			ret = append(ret, x)
+		}
+	}
+	return ret
+}
+
 func init() {
 	commands["c14"] = func(args []string) error {
 		fs := flag.NewFlagSet("c14", flag.ExitOnError)
@@ -97,29 +113,38 @@ func init() {
 			}
 			myEvals, myNon := 0, 0
 			for _, a := range c14Anchors(c.W0, *allAnchors) {
-				var dates []string
+				var dates0 []string
 				for _, d := range c.Dates {
-					dates = append(dates, a.Day0.AddDate(0, 0, d).Format("2006-01-02"))
+					dates0 = append(dates0, a.Day0.AddDate(0, 0, d).Format("2006-01-02"))
 				}
-				for k, ts := range c.Ts {
-					t := a.Day0.Add(time.Duration(ts) * time.Second)
-					if k > 0 && c.Exp[k] != c.Exp[k-1] {
-						myNon++
-					}
-					for _, z := range c14Zones {
-						got, err := client.VerifScheduleActive(start, end, wds, dates, t.In(z))
-						myEvals++
-						if err != nil || got != c.Exp[k] {
-							res.fail(Failure{
-								What: "schedule.activeForTime disagrees with Schedule!Active",
-								Case: map[string]any{"start": start, "end": end, "weekdays": c.Wds,
-									"dates": dates, "t": t.In(z).Format(time.RFC3339), "anchor": a.Name,
-									"model": map[string]any{"sm": c.Sm, "em": c.Em, "wds": c.Wds, "dates": c.Dates, "w0": c.W0, "t": ts}},
-								Expected: c.Exp[k], Observed: fmt.Sprint(got, " err=", err),
-							})
+				// the filters are lists: the same set in another order or with an entry twice means the same
+				forms := 1
+				if len(dates0)+len(wds) > 0 {
+					forms = 4
+				}
+				for form := 0; form < forms; form++ {
+					dates, wds := c14ListForm(dates0, form), c14ListForm(wds, form)
+					for k, ts := range c.Ts {
+						t := a.Day0.Add(time.Duration(ts) * time.Second)
+						if k > 0 && c.Exp[k] != c.Exp[k-1] {
+							myNon++
+						}
+						for _, z := range c14Zones {
+							got, err := client.VerifScheduleActive(start, end, wds, dates, t.In(z))
+							myEvals++
+							if err != nil || got != c.Exp[k] {
+								res.fail(Failure{
+									What: "schedule.activeForTime disagrees with Schedule!Active",
+									Case: map[string]any{"start": start, "end": end, "weekdays": c.Wds,
+										"dates": dates, "t": t.In(z).Format(time.RFC3339), "anchor": a.Name,
+										"model": map[string]any{"sm": c.Sm, "em": c.Em, "wds": c.Wds, "dates": c.Dates, "w0": c.W0, "t": ts}},
+									Expected: c.Exp[k], Observed: fmt.Sprint(got, " err=", err),
+								})
+							}
 						}
 					}
 				}
+				dates := dates0
 				if i%997 == 0 && a.Name == "year-end" {
 					res.sample(map[string]any{"start": start, "end": end, "weekdays": c.Wds, "dates": dates,
 						"day0": a.Day0.Format("2006-01-02 Mon"), "instants_s": c.Ts, "predicted_active": c.Exp,
